@@ -1,4 +1,5 @@
 import Proofs.Spawn
+import Proofs.SpawnStatus
 /-!
 # C07  Popen exists iff the program started; failed launches leave nothing behind
 
@@ -20,22 +21,25 @@ theorem c07_errno_roundtrip (e : Nat) (h : e < 4294967296) : decodeLE (encodeLE 
 
 /-- **C07 (nothing left behind, failure before the process exists).**  If the attempt fails before
     or at the fork — any `pipe`, `fcntl` or `fork` failing, an invalid configuration, a NUL byte —
-    the call closes exactly the descriptors the attempt owned, which include every descriptor any
-    `pipe()` answer handed to it and every file passed in; it never waits and never forks again. -/
+    the call closes exactly the descriptors the attempt owned (after the one it had released by
+    design: the original of a relocated status write end), which together include every descriptor
+    any `pipe()` / `F_DUPFD_CLOEXEC` answer handed to it and every file passed in; it never waits and
+    never forks again. -/
 theorem c07_no_fd_left_before_fork (c : Cfg) (rs : List SResp) (ha : c.argvEmpty = false) (r : Res)
     (hf : (acquireAll (stagesOf c) (s0 c) rs).fail = some r) :
     (parentRun c rs).res = r ∧
-    closedBy (parentRun c rs).calls = (acquireAll (stagesOf c) (s0 c) rs).s.owned ∧
+    closedBy (parentRun c rs).calls =
+      (acquireAll (stagesOf c) (s0 c) rs).s.released ++ (acquireAll (stagesOf c) (s0 c) rs).s.owned ∧
     (∀ f ∈ (acquireAll (stagesOf c) (s0 c) rs).s.got ++ cfgFiles c, f ∈ closedBy (parentRun c rs).calls) ∧
     hasWait (parentRun c rs).calls = false := by
   obtain ⟨hc, hr⟩ := parentRun_fail c rs ha r hf
   obtain ⟨p1, p2, -, p4, p5, -⟩ := prefork_facts c rs
-  refine ⟨hr, by rw [hc, closedBy_append, p1, closedBy_closeAll]; rfl, ?_, by rw [hc, hasWait_append, p2]; simp⟩
+  refine ⟨hr, by rw [hc, closedBy_append, p1, closedBy_closeAll], ?_, by rw [hc, hasWait_append, p2]; simp⟩
   intro f hfm
-  rw [hc, closedBy_append, p1, closedBy_closeAll]
+  rw [hc, closedBy_append, p1, closedBy_closeAll, List.mem_append]
   rcases List.mem_append.mp hfm with h | h
-  · exact p5 f h
-  · exact p4 f h
+  · exact (p5 f h).symm
+  · exact (p4 f h).symm
 
 /-- **C07 (Ok iff started, and only after that is known).**  After a successful fork the result
     is decided by the read on the status channel, which is issued after the child ends and the
@@ -132,6 +136,25 @@ theorem c07_failed_child_is_reaped (c : Cfg) (s : AState) (rs rs' : List SResp) 
   · left; left; left; right; exact hf
   · right; simp [hf]
 
+
+/-- **C07 (the launch-status channel survives the child's stream set-up, whatever descriptors the
+    caller runs with).**  Whenever the process is forked, the status write end is a descriptor above
+    2 — `pipe()` answered one, or (a caller with closed standard descriptors) the write end was
+    moved there before anything else — whereas every `dup2` of the child's set-up targets 0, 1 or 2:
+    no step before `exec` can overwrite the descriptor through which a failed start is reported
+    (defect F12 of the original code: with descriptors 0 and 1 closed in the caller and a piped
+    stdout, a missing program gave `Ok`). -/
+theorem c07_status_channel_survives_child_setup (c : Cfg) (rs : List SResp)
+    (hfork : (acquireAll (stagesOf c) (s0 c) rs).fail = none) :
+    2 < statusW (acquireAll (stagesOf c) (s0 c) rs).s ∧
+    ∀ p sr f d, SCall.dup2 f d ∈ childSteps c p sr → d ≠ statusW (acquireAll (stagesOf c) (s0 c) rs).s := by
+  obtain ⟨sr, sw, hs, hgt⟩ := status_high_at_fork c rs hfork
+  have hW : statusW (acquireAll (stagesOf c) (s0 c) rs).s = sw := by simp [statusW, hs]
+  refine ⟨by omega, ?_⟩
+  intro p sr' f d hmem
+  have := childSteps_dup2_target c p sr' f d hmem
+  omega
+
 /-! ### Non-vacuity (tests, labelled as tests) -/
 def cfgPPP : Cfg := { sin := .pipe, sout := .pipe, serr := .pipe, detached := true, cwd := false, uid := none, gid := none,
                       pgid := false, argvEmpty := false, nul := false, ncand := 1 }
@@ -140,5 +163,21 @@ example : closedBy (parentRun cfgPPP [.fds 3 4, .val 0, .ok, .val 0, .ok, .fds 5
 -- the child reports errno 2 after a successful fork: waited for although detached
 example : hasWait (parentRun cfgPPP [.fds 3 4, .val 0, .ok, .val 0, .ok, .fds 5 6, .val 0, .ok, .fds 7 8, .val 0, .ok,
     .fds 9 10, .val 0, .ok, .ok, .ok, .ok, .ok, .ok, .nbytes 4 2, .ok]).calls = true := by decide
+
+-- a caller with descriptors 0 and 1 closed, stdout piped: the status pipe is answered as (0, 1), the write end is moved to
+-- 3, the stream pipe lands on (4, 5) because 1 is still held, then 1 is released; the child's `dup2 5 1` hits nothing
+def cfgOut : Cfg := { sin := .none, sout := .pipe, serr := .none, detached := false, cwd := false, uid := none, gid := none,
+                      pgid := false, argvEmpty := false, nul := false, ncand := 1 }
+def rsClosed01 : List SResp := [.fds 0 1, .val 3, .val 0, .ok, .val 1, .ok, .fds 4 5, .val 0, .ok, .ok, .ok, .ok, .ok, .nbytes 4 2, .ok, .ok]
+example : (acquireAll (stagesOf cfgOut) (s0 cfgOut) rsClosed01).fail = none := by decide
+example : (acquireAll (stagesOf cfgOut) (s0 cfgOut) rsClosed01).s.status = some (0, 3) := by decide
+example : (acquireAll (stagesOf cfgOut) (s0 cfgOut) rsClosed01).s.released = [1] := by decide
+example : (parentRun cfgOut rsClosed01).res = .err 2 := by decide
+example : SCall.dup2 5 1 ∈ childSteps cfgOut (parentRun cfgOut rsClosed01).pipes 0 := by decide
+/-- F12 (repaired by a `fix:` commit): without the relocation the status write end stays on 1, which is exactly the
+    target of the child's `dup2` for a piped stdout. -/
+theorem c07_status_clobbered_counterexample_old :
+    (acquire .statusPipe (s0 cfgOut) [.fds 0 1]).s.status = some (0, 1) ∧
+    SCall.dup2 4 1 ∈ childSteps cfgOut { pout := some (3, 4) } 0 := by decide
 
 end Spawn
